@@ -119,6 +119,25 @@ ScaledPoint(ng, bounds, pt) ==
      IF ng[k] = 1 THEN bounds[k][1] * M
      ELSE bounds[k][1] * M + pt[k] * (bounds[k][2] - bounds[k][1]) * (M \div (ng[k] - 1))]
 
+\* The grid of a frame: slot s (from 0) |-> position on the scale M.  A frame of a trajectory has two INDEPENDENT
+\* attributes: its box bounds (snapshot.boxbounds: a LAMMPS box has origin + bounding box of the cell, a gsd frame the
+\* extent of its particles) and its cell (snapshot.hmatrix).  The grid of frame n is a function of the bounds of
+\* frame n alone (not of its cell, not of any other frame); the minimum image is a function of the cell of frame n alone.
+FrameGrid(ng, bounds) == [s \in 0..(NPoints(ng) - 1) |-> ScaledPoint(ng, bounds, Unflat(ng, s))]
+\* two bounds give the same grid iff they agree on every axis (the upper bound of an axis with one point is not used)
+SameGridBounds(ng, b1, b2) == \A k \in 1..Len(ng) : b1[k][1] = b2[k][1] /\ (ng[k] > 1 => b1[k][2] = b2[k][2])
+\* how the two attributes change from one frame to the next
+CellChange(H1, H2) ==
+  IF H1 = H2 THEN "same"
+  ELSE IF \A k \in 1..Len(H1) : H1[k][k] = H2[k][k] THEN "tilt"            \* same edge lengths, other tilt factors
+  ELSE IF \A k, m \in 1..Len(H1) : k # m => H1[k][m] = H2[k][m] THEN "lengths"
+  ELSE "both"
+BoundsChange(b1, b2) ==
+  IF b1 = b2 THEN "same"
+  ELSE IF \A k \in 1..Len(b1) : b1[k][2] - b1[k][1] = b2[k][2] - b2[k][1] THEN "shifted"   \* origin moved, same lengths
+  ELSE "resized"
+BoundsShift(b, t) == [k \in 1..Len(b) |-> <<b[k][1] + t[k], b[k][2] + t[k]>>]
+
 \* admissible minimum images: Cell!MinImage written as an explicit product of
 \* the per-axis coefficient sets Cell!CoefSets (same set, cheaper to enumerate)
 CgImages(H, v, ppp) ==
